@@ -146,11 +146,15 @@ def c16_pairs(seed, n, sizes=('tiny', 'mid')):
             rho = {c: f'n{j}' for j, c in enumerate(cs)}
         b = copy.deepcopy(base)
         b['rows'] = [[rho[r[0]], r[1], r[2], r[3]] for r in b['rows']]
-        ex = b['prms'].get('EXCLUDE_FOR_BASE_HEIGHT_CALC')
-        if ex is not None:
-            b['prms']['EXCLUDE_FOR_BASE_HEIGHT_CALC'] = [rho.get(c, c) for c in ex]
-        # names not in the data that stay in the exclusion list must not collide with new names
-        if ex and any(c not in rho and c in rho.values() for c in ex):
+        clash = False
+        for blk in ('prms', 'gprms', 'gedit'):
+            ex = (b.get(blk) or {}).get('EXCLUDE_FOR_BASE_HEIGHT_CALC')
+            if ex is not None:
+                b[blk]['EXCLUDE_FOR_BASE_HEIGHT_CALC'] = [rho.get(c, c) for c in ex]
+            # names not in the data that stay in the exclusion list must not collide with new names
+            if blk != 'gedit' and ex and any(c not in rho and c in rho.values() for c in ex):
+                clash = True
+        if clash:
             continue
         out.append({'kind': 'c16', 'name': f'c16:{seed}:{i}', 'a': base, 'b': b, 'rho': [[k, v] for k, v in rho.items()]})
     return out
